@@ -180,7 +180,11 @@ def check_whole_buffer(cfg, w, rep, lf, b, blk, t):
     recv = prog.resolve_op(b, t.args[0], IDENT)
     # returned payload
     ret_payload = prog.resolve_lifted(lf.body, 0, (("v", "Ok"), ("f", "0")), IDENT)
-    if data and ret_payload and data == ret_payload:
+    returns_bytes = "Vec<u8>" in lf.outer.j.get("sig_output", "") or "[u8]" in lf.outer.j.get("sig_output", "")
+    if not returns_bytes:
+        # a verify-only helper (hands out no bytes): only the provenance of what it verifies matters
+        rep.ob(cfg, "R2-verify-only", key, "`%s` verifies without returning bytes" % short(lf.path))
+    elif data and ret_payload and data == ret_payload:
         rep.ob(cfg, "R2-same-buffer", key, "buffer passed to Integrity::check is the buffer returned (%s)" % (
             ", ".join(sorted(origin_desc(prog, o) for o in data))))
     else:
@@ -205,6 +209,14 @@ def check_whole_buffer(cfg, w, rep, lf, b, blk, t):
                 sri_t = cls[2]
                 if sri_t[0] == "param" and sri_t[1] == lf.path and sri_t[2] == sri_i:
                     ok_src = True
+        if o.kind == "call" and o.callee is not None and o.callee.path in ("memmap2::Mmap::map", "memmap2::MmapOptions::map"):
+            # a read-only mapping of File::open(content_path(cache, sri))
+            cls = w.inv.classify(w.sym.of_operand(o.body, o.term.args[-1]))
+            cur = cls
+            while cur and cur[0] in ("Handle", "Mmap"):
+                cur = cur[1]
+            if cur and cur[0] == "Content" and cur[2][0] == "param" and cur[2][1] == lf.path and cur[2][2] == sri_i:
+                ok_src = True
     if ok_src:
         rep.ob(cfg, "R2-source", key, "verified bytes were read from content_path(cache, param#%d) and checked against param#%d" % (sri_i, sri_i))
     else:
@@ -426,8 +438,13 @@ def check_stream_impl(cfg, w, rep, lf):
             h = prog.resolve_op(o.body, o.term.args[0], IDENT)
             if h and all(x.kind == "field" and x.info[0] == own for x in h):
                 inner_ok = True
-        if has_buf and (inner_ok or _tokio_filled(prog, b, t)):
-            rep.ob(cfg, "R3-slice", key, "slice fed to the checker in `%s` derives from the caller's buffer and the inner read" % short(lf.path))
+        exact = fed_slice_exact(w, lf, b, blk, t, own)
+        if has_buf and (inner_ok or _tokio_filled(prog, b, t)) and exact is True:
+            rep.ob(cfg, "R3-slice", key, "slice fed to the checker in `%s` is exactly the bytes the inner read just placed in the caller's buffer" % short(lf.path))
+        elif has_buf and (inner_ok or _tokio_filled(prog, b, t)):
+            rep.violation("R3-slice:%s" % key,
+                          "`%s`: the slice fed to the checker is not exactly the bytes the inner read just delivered (%s): the checker would "
+                          "hash other bytes than the caller receives" % (short(lf.path), exact), loc=span_str(t.span), config=cfg, rule="R3-slice")
         else:
             rep.violation("R3-slice:%s" % key,
                           "`%s`: the bytes fed to the checker are not the caller's buffer bounded by the inner read" % short(lf.path),
@@ -450,6 +467,77 @@ def check_stream_impl(cfg, w, rep, lf):
     if n_inner != 1:
         rep.violation("R3-inner-count:%s" % key, "`%s` performs %d reads on its file per call (expected exactly 1)" % (short(lf.path), n_inner),
                       loc=body.loc(), config=cfg, rule="R3-inner-read")
+
+
+INNER_READ = re.compile(r"(Read>?::read|AsyncRead>?::poll_read)$")
+
+
+def fed_slice_exact(w, lf, b, blk, t, own):
+    """The slice handed to the checker / digest builder is exactly what the inner read delivered:
+      A  buf[..n]           with n the Ok payload of inner.read(buf) / poll_read(cx, buf) on the owned file, same buf parameter;
+      B  buf.filled()[p..]  (tokio ReadBuf) with p = buf.filled().len() evaluated BEFORE the inner poll_read and the slice
+                            taken AFTER it.
+    Returns True or a short description of what it is instead."""
+    prog = w.prog
+    want = 2 if lf.outer.name == "poll_read" else 1
+    T = w.sym.of_operand(b, t.args[1])
+    buf = ("param", lf.path, want, ())
+    idxs = [e for e in (T[3] if T[0] in ("param", "call") else ()) if e[0] == "[]"]
+    others = [e for e in (T[3] if T[0] in ("param", "call") else ()) if e[0] != "[]"]
+    if len(idxs) != 1 or others or len(idxs[0]) != 2:
+        return "not a single range of the buffer: %s" % term_str(T)[:80]
+    R = idxs[0][1]
+    if R[0] != "agg" or not R[1].startswith("std::ops::Range"):
+        return "indexed by %s" % term_str(R)[:60]
+    f = dict(R[3])
+
+    def own_inner(c):
+        return c[0] == "call" and INNER_READ.search(c[1]) and c[2] and c[2][0][0] == "field" and c[2][0][1] == own and c[2][-1] == buf
+    if T[0] == "param" and T[:3] == buf[:3] and R[1] == "std::ops::RangeTo":
+        e = f.get("end")
+        if e is not None and own_inner(e) and tuple(e[3])[-2:] == (("v", "Ok"), ("f", "0")):
+            return True
+        return "buf[..n] where n is %s, not the amount the inner read returned" % term_str(e)[:80]
+    if T[0] == "call" and T[1].endswith("ReadBuf::<'a>::filled") and tuple(T[2]) == (buf,) and R[1] == "std::ops::RangeFrom":
+        st = f.get("start")
+        ok_shape = st is not None and st[0] == "call" and st[1].endswith("::len") and st[2] and st[2][0][0] == "call" and \
+            st[2][0][1].endswith("ReadBuf::<'a>::filled") and tuple(st[2][0][2]) == (buf,) and not st[3]
+        if not ok_shape:
+            return "filled()[p..] where p is %s, not an earlier filled().len()" % term_str(st)[:80]
+        # ordering: p before the inner read, the slice after it
+        body = b
+        cf = prog.cfg(body)
+        inner = [(bb, tt) for bb, tt in body.calls() if tt.callee is not None and INNER_READ.search(tt.callee.path)]
+        rng_origin = None
+        for o in prog.resolve_op(body, t.args[1], IDENT, blk.i):
+            pass
+        lens = [bb.i for bb, tt in body.calls() if tt.callee is not None and tt.callee.path.endswith("::len")]
+        fills = [bb.i for bb, tt in body.calls() if tt.callee is not None and tt.callee.path.endswith("ReadBuf::<'a>::filled")]
+        if len(inner) != 1:
+            return "%d inner reads" % len(inner)
+        ib = inner[0][0].i
+        # the start operand's own len() call must precede the inner read; the filled() the slice is taken from must follow it
+        for o in prog.resolve_op(body, t.args[1], IDENT, blk.i):
+            ix = [e for e in o.path if e[0] == "[]" and len(e) == 3]
+            if o.kind != "call" or len(ix) != 1:
+                continue
+            ib_body = prog.by_path.get(ix[0][1])
+            if ib_body is not body:
+                continue
+            it = body.blocks[ix[0][2]].term
+            start_lens = set()
+            for ro in prog.resolve_op(body, it.args[1], IDENT, ix[0][2]):
+                if ro.kind == "agg":
+                    for so in prog.resolve_op(ro.body, ro.info.ops[0], IDENT, ro.blk):
+                        if so.kind == "call":
+                            start_lens.add(so.blk)
+            if not start_lens or not all(cf.dominates(x, ib) and x != ib for x in start_lens):
+                return "the start of the range is not taken before the inner read"
+            if not (cf.dominates(ib, o.blk) and o.blk != ib):
+                return "filled() is not taken after the inner read"
+            return True
+        return "slice is not an index expression"
+    return "neither buf[..n] nor filled()[p..]: %s" % term_str(T)[:80]
 
 
 def _tokio_filled(prog, b, t):
